@@ -354,6 +354,9 @@ func (u *Unit) binop(fc *frameCtx, pc *Term, op token.Token, x, y *SV, xt, rt ty
 			f := c.Func("str_cat", []*Sort{SStr, SStr}, SStr)
 			r := c.App(f, a, b)
 			u.assume(pc, c.Eq(u.strLen(r), c.Add(u.strLen(a), u.strLen(b))))
+			// the empty string is the only one of length 0 seen from here: ties r == "" to its length
+			u.assume(nil, c.Eq(c.App(c.Func("str_len", []*Sort{SStr}, SInt), c.Str("")), c.Int(0)))
+			u.assume(pc, c.And(c.Le(c.Int(0), u.strLen(a)), c.Le(c.Int(0), u.strLen(b))))
 			return leaf(r)
 		case token.LSS:
 			return leaf(u.strLt(a, b))
